@@ -139,6 +139,8 @@ class ProgressBar(Widget):
                 a.append((self.normal, maxcol - ccol - 1))
             c._attr = [a]
             c._cs = [[(None, len(c._text[0]))]]
+        elif ccol == 0:
+            c._attr = [[(self.normal, maxcol)]]
         else:
             c._attr = [[(self.complete, ccol), (self.normal, maxcol - ccol)]]
         return c
